@@ -39,6 +39,22 @@ def hostile_text_schema():
     s.messages[1].fields.append(S.Field("q", 900, "Q", description="field 'd' \"e\""))
     s.messages[1].fields.append(S.Field("eq", 901, "EQ"))
     s.messages[1].fields.append(S.Field("cs", 902, "CS"))
+    # text that is not printable ASCII: UTF-8 (multi-byte sequences count in bytes for `length`), control characters that
+    # XML allows (tab, CR, LF through character references), DEL.  In C++20 a u8 literal is char8_t, a universal
+    # character name depends on the execution character set: the bytes of the schema are what must come out
+    # (added after seeded change C07-4 and the line coverage of sbeppc's escape function)
+    s.types.append(S.Type("U8D", "uint8", description="B\u00f6rse \u20ac \u65e5\u672c tab\there cr\rlf\n del\x7f end",
+                          semantic_type="St\u00fcck", char_encoding="UTF-8"))
+    s.types.append(S.Type("CU8", "char", presence="constant", const="B\u00f6rse", char_encoding="UTF-8"))
+    s.types.append(S.Type("CU8pad", "char", presence="constant", length=8, const="St\u00fcck"))
+    s.types.append(S.Type("CU8x", "char", presence="constant", length=7, const="\u20ac\t\u65e5"))
+    s.types.append(S.Composite("CompU8", [S.Type("id", "uint32"), S.Type("unit", "char", presence="constant", length=8, const="St\u00fcck"),
+                                          S.Ref("venue", "CU8")], description="\u00fc"))
+    s.messages[1].fields.append(S.Field("u8d", 906, "U8D", description="\u00e4\t\u00f6"))
+    s.messages[1].fields.append(S.Field("cu8", 907, "CU8"))
+    s.messages[1].fields.append(S.Field("cu8pad", 908, "CU8pad"))
+    s.messages[1].fields.append(S.Field("cu8x", 909, "CU8x"))
+    s.messages[1].fields.append(S.Field("compu8", 910, "CompU8"))
     s.messages[1].block_length = None
     return s
 
